@@ -71,6 +71,24 @@ CLAIMED = {
             "the stored energy elsewhere is measured from the initial length.", "4/C09",
             "symbolic execution of the real assembly code on z3 terms (syntactic normal form of the fraction-free scalars decides the zero clauses; z3 nlsat the rest); float replay of models",
             "Bounded grid of pairings/axes; most zero clauses are discharged syntactically after symbolic execution (stated in the evidence)."),
+    "C10": ("proof", "Reference configuration stress-free (E_pot, internal forces, compliance and constraint residuals vanish at a fully symbolic "
+            "reference Q), invariance of compliance/constraint residuals and of the strain energy under a superposed symbolic rigid motion (the "
+            "energy per generator of the rotation group), translation invariance of internal forces, zero resultant of the internal nodal forces for "
+            "every state.", "4/C10",
+            "symbolic execution of the real rod code on z3 terms + z3 nlsat per scalar obligation; float replay of models",
+            "Bounded grid: Quaternion and R12 interpolation, degree 1, 1-2 elements in the quick tier (SE3, degree 2 only in the thorough tier and possibly inconclusive)."),
+    "C11": ("proof", "Kinematic-equation Jacobians, element Jacobians (f_int_el_qe, c_el_qe, Wla_c_el_qe, c_la_c_el, g_q_el, Wla_g_q_el), _deval vs _eval, "
+            "cross-section position/orientation/velocity/acceleration Jacobians, nodal interpolation property, rotation property of A_IB, M symmetric "
+            "positive semidefinite with E_kin = 1/2 u^T M u, power-free gyroscopic forces and their Jacobian - each compared with the chain-rule tangent "
+            "of the primal, at non-unit nodal quaternions.", "4/C11",
+            "symbolic execution of the real rod code on z3-term jets + z3 nlsat per scalar obligation; float replay of models",
+            "Bounded grid as C10; element Jacobians per basis direction (three seeded directions per formulation in the quick tier); clauses that mix "
+            "differently associated float quadrature constants are decided with an absolute tolerance on the unit box (homogeneity gives the relative statement)."),
+    "C13": ("proof", "With xi symbolic the real element lookup and basis evaluation are explored path by path: containment of xi in the returned "
+            "element, partition of unity, zero-sum derivatives, derivative routine = derivative of the basis; Gauss/Lobatto exactness for every "
+            "monomial of admissible degree on a symbolic interval; Kronecker property and mesh connectivity enumerated over the grid.", "4/C13",
+            "path-exploring symbolic execution of the real basis/quadrature code + z3 nlsat per obligation with explicit tolerances over exact rational float values; float replay of models",
+            "Bounded in degree, element count and number of quadrature points (evidence.coverage.bounds); connectivity and nodal clauses are concrete enumerations."),
 }
 
 NOT_APPLICABLE = {
